@@ -243,6 +243,8 @@ class Writer:
         how = opts[0] if self.k['addr'] == 'canon' else self.rng.choice(opts)
         if isinstance(self.k['addr'], str) and self.k['addr'] in opts:
             how = self.k['addr']
+        if self.k['addr'] == 'explicit':          # always schema.name, also for public
+            how = 'public' if t.schema == 'public' else 'full'
         if how == 'bare':
             return self.ident(t.name)
         if how == 'alias':
